@@ -166,7 +166,7 @@ EncLens == {0, 1, 2, 12, 995, 996, 4091, 4092, 65514, 65515, 65516, 65517, 65518
             65530, 65531, 65532, 65533, 65535, 65536, 70000, 131072, 1048571, 1048572}
 SbLens  == {0, 1, 2, 65514, 65515, 65516, 65519, 65520, 65521, 131029, 131030, 131031, 131032, 196545, 196546, 200000}
 
-SmallPayloads == {<<>>, <<7>>, <<48, 48>>, <<48, 48, 48, 52, 9>>}
+SmallPayloads == {<<>>, <<LF>>, <<48, 48>>, <<48, 48, 48, 52, 9>>}
 SmallItems == {Data(p) : p \in SmallPayloads} \cup {Flush, Delim}
 
 CapChars == {97, EQ}                         \* "other" and '='
@@ -193,6 +193,10 @@ Init ==
     \/ /\ Family = "frames"                     \* short item sequences: the byte stream and its decoding
        /\ case \in SeqsUpTo(SmallItems, 3)
        /\ exp = [bytes |-> Encode(case)]
+    \/ /\ Family = "sbmix"                      \* three channels interleaved: bytes on the wire, data per channel
+       /\ case \in SeqsUpTo({[ch |-> c, d |-> d] : c \in 1..3, d \in {<<>>, <<LF>>, <<1, 2, 3>>}}, 3)
+       /\ LET items == Concat([i \in 1..Len(case) |-> SbItems(case[i].ch, case[i].d, SbMaxData)]) IN
+          exp = [bytes |-> Encode(Append(items, Flush)), cat |-> [c \in 1..3 |-> ChanCat(items, c)]]
     \/ /\ Family = "caps"                       \* first ref line with a capability list
        /\ \E ref \in RefTokens, caps \in NonEmptySeqs(CapTokens, 3) :
             /\ case = [ref |-> ref, caps |-> caps]
@@ -226,6 +230,10 @@ Theorems ==
          /\ \A k \in 1..(Len(exp.bytes) - 1) :  \* every proper prefix is either a shorter item list or an error
               LET d == Decode(SubSeq(exp.bytes, 1, k)) IN
               /\ Len(d.items) <= Len(case) /\ d.items = SubSeq(case, 1, Len(d.items))
+    /\ Family = "sbmix" =>
+         /\ WellFormedStream(exp.bytes)
+         /\ \A c \in 1..3 : ChanCat(Decode(exp.bytes).items, c) = exp.cat[c]
+         /\ \A c \in 1..3 : exp.cat[c] = Concat([i \in 1..Len(case) |-> IF case[i].ch = c THEN case[i].d ELSE <<>>])
     /\ Family = "caps" =>
          /\ ExtractCaps(exp.line) = [head |-> exp.head, caps |-> case.caps]
          /\ ExtractCaps(RefLinePlain(Sha, case.ref)).caps = <<>>
